@@ -140,10 +140,18 @@ def _resolve(w, r, tree, ctx):
     except Either as e:
         ctx.either = str(e)
         return _HOLE
+    if k in ("array", "map") and r.kind == k:
+        # element types are judged on the elements actually present (datum-relative
+        # rules); an empty collection of unmatched element types is left open (A11)
+        if empty:
+            if not match(w, r):
+                ctx.either = "empty collection of non-matching element types"
+                return _HOLE
+            return [] if k == "array" else {}
+        if k == "array":
+            return [_resolve(w.items, r.items, c, ctx) for c in v[0]]
+        return {key: _resolve(w.values, r.values, c, ctx) for key, c in v[0]}
     if not match(w, r):
-        if empty and r.kind == k:
-            ctx.either = "empty collection of non-matching element types"
-            return _HOLE
         return _fail(ctx, "%r does not match %r" % (k, r.kind))
     if k in ("null", "boolean", "int", "long", "float", "double", "bytes", "string"):
         if r.kind == k:
